@@ -147,9 +147,10 @@ def pool_tree():
     for n in range(1, 6):
         for combo in itertools.product(['1', ',', ';'], repeat=n):
             malformed.append(' '.join(combo))
-    for combo in itertools.product(['1', ',', ';', '(', ')'], repeat=4):
-        if '(' in combo and ')' in combo:
-            malformed.append(' '.join(combo))
+    for n in (3, 4, 5):
+        for combo in itertools.product(['1', ',', ';', '(', ')'], repeat=n):
+            if '(' in combo or ')' in combo:
+                malformed.append(' '.join(combo))
     out += [('tree', m, []) for m in malformed] + [('eval', m, ['a=int:1', 'b=int:2', 'c=int:3', 'x=int:2', 'n=int:3']) for m in malformed]
     return out
 
